@@ -2,6 +2,7 @@ package main
 
 import (
 	"fmt"
+	"os"
 	"go/token"
 	"strings"
 
@@ -192,8 +193,8 @@ func checkC15(w *World, r *Report) {
 	cskE := one(find(func(s *Site) bool { return calleeIs(s, "x/cfesignature/keeper.Keeper.CreateStorageKey") }))
 	gsE := one(find(func(s *Site) bool { return calleeIs(s, "x/cfesignature/keeper.Keeper.GetSignature") }))
 	checkE := one(find(func(s *Site) bool { return strings.HasSuffix(s.CalleeName(), "x509.Certificate.CheckSignature") }))
-	if gplE == nil || cskE == nil || gsE == nil || checkE == nil || len(gplE.Chain) > 0 || len(cskE.Chain) > 0 || len(gsE.Chain) > 0 {
-		r.Bad("C15.payload", "VerifySignature: lookup of record and link, verification call", w.Pos(ver.Pos()), "the query no longer consists of one CreateStorageKey, one GetSignature, one GetPayloadLink (in the query itself) and one x509 CheckSignature below it")
+	if gplE == nil || cskE == nil || gsE == nil || checkE == nil || len(gplE.Chain) > 0 || len(gsE.Chain) > 0 {
+		r.Bad("C15.payload", "VerifySignature: lookup of record and link, verification call", w.Pos(ver.Pos()), "the query no longer consists of one GetSignature and one GetPayloadLink (in the query itself), one CreateStorageKey and one x509 CheckSignature in or below it")
 		return
 	}
 	gplCall, cskCall, gsCall := gplE.Site, cskE.Site, gsE.Site
@@ -319,9 +320,34 @@ func checkC15(w *World, r *Report) {
 		}
 		gsa := gsCall.Args()
 		okLookup := loadOfField(gsa[len(gsa)-1], "StorageKey", nil)
+		if !okLookup {
+			// the key is computed below a helper: the key handed to GetSignature is the StorageKey of that call's response
+			kt := w.Tracer()
+			kt.Opaque[funcName(csk)] = true
+			kt.Stop = []string{"keeper.Keeper.CreateStorageKey"}
+			ko := kt.Origins(gsa[len(gsa)-1])
+			n := 0
+			okLookup = true
+			for _, l := range ko.Leaves {
+				if l.Kind == "const" || l.Kind == "zero" {
+					continue // (the empty key returned beside an error)
+				}
+				n++
+				if os.Getenv("C4E_DEBUG") != "" {
+					fmt.Fprintln(os.Stderr, "C15 key leaf:", l.Kind, l.String())
+				}
+				if !(l.Kind == "call" && l.V == cskCall.Instr.(ssa.Value) && strings.HasSuffix(l.Path, "StorageKey")) {
+					okLookup = false
+				}
+			}
+			okLookup = okLookup && n > 0
+		}
 		// the request passed to CreateStorageKey carries the same address and id
-		o := tr.Origins(cskCall.Args()[len(cskCall.Args())-1])
+		o := tr.OriginsVia(*cskE, cskCall.Args()[len(cskCall.Args())-1], nil)
 		okReq := o.HasLeaf("param", ".QueryVerifySignatureRequest.TargetAccAddress") && o.HasLeaf("param", ".QueryVerifySignatureRequest.ReferenceId")
+		if os.Getenv("C4E_DEBUG") != "" {
+			fmt.Fprintln(os.Stderr, "C15 record key:", ok, okLookup, okReq, o.String())
+		}
 		r.Check(ok && okLookup && okReq, "C15.payload", "record looked up under CalculateHash(HashConcat(address, referenceId))", w.Pos(gsCall.Instr.Pos()), "storage key derived from the request's address and reference id", "the signature record is looked up under a key not derived from (address, referenceId)")
 	}
 	_ = skComps
@@ -334,10 +360,10 @@ func checkC15(w *World, r *Report) {
 			uses["TargetAccAddress"] = append(uses["TargetAccAddress"], comps[0])
 			uses["ReferenceId"] = append(uses["ReferenceId"], comps[1])
 		}
-		for _, fs := range FieldStores(ver) {
-			if namedIs(fs.Struct, "x/cfesignature/types", "QueryCreateStorageKeyRequest") {
-				if _, ok := uses[fs.Field]; ok {
-					uses[fs.Field] = append(uses[fs.Field], normLocal(fs.Store.Val))
+		for _, sb := range w.storesBelow(ver, "QueryCreateStorageKeyRequest", 2, nil) {
+			if namedIs(sb.FS.Struct, "x/cfesignature/types", "QueryCreateStorageKeyRequest") {
+				if _, ok := uses[sb.FS.Field]; ok {
+					uses[sb.FS.Field] = append(uses[sb.FS.Field], normLocal(sb.Val))
 				}
 			}
 		}
